@@ -1018,7 +1018,7 @@ def em_ctor_init(em, f, ini):
 
 
 # ----------------------------------------------------------------------------------------------
-BUILTIN_WORDS = set('verif_std_exception __va_list_tag const volatile unsigned signed char short int long float double void _Bool bool struct union enum restrict __restrict'.split())
+BUILTIN_WORDS = set('verif_std_exception verif_std_nothrow_t __va_list_tag const volatile unsigned signed char short int long float double void _Bool bool struct union enum restrict __restrict'.split())
 
 class Prelude:
     """types, records (R7), enums, typedefs, globals (R14), prototypes"""
@@ -1075,6 +1075,7 @@ class Prelude:
         q = re.sub(r'\bclass\s+', 'struct ', q)
         q = q.replace('std__nullptr_t', 'void *')
         q = re.sub(r'\bstd__exception\b', 'struct verif_std_exception', q)      # R13b: opaque stand-in for the caught object
+        q = re.sub(r'\bstd__nothrow_t\b', 'struct verif_std_nothrow_t', q)    # the tag type of the nothrow operator new / delete forms
         q = re.sub(r'\s*noexcept(\([a-z]*\))?', '', q)
         q = re.sub(r'\b__va_list_tag \*', 'va_list ', q)
         return q
@@ -1402,12 +1403,15 @@ C_PRELUDE = '''#include <stddef.h>
 #include <errno.h>
 #include <math.h>
 void *VERIF_operator_new(size_t);
+void VERIF_operator_delete(void *);
+void VERIF_operator_delete_array(void *);
 void VERIF_throw(const char *);
 /* R13b (opt-in VERIF_EXCEPTIONS): the exception in flight, 0 = none */
 #define VERIF_EXC_CppUTestFailedException 1
 #define VERIF_EXC_std 2
 #define VERIF_EXC_foreign 3
 struct verif_std_exception { int verif_dummy; };
+struct verif_std_nothrow_t { int verif_dummy; };
 int verif_exc;
 '''
 
